@@ -24,9 +24,8 @@ CONSTANTS Keys,        \* key name -> [sort, disp]
           Initial,     \* sort string -> heading title
           Paths,       \* set of paths entries may use
           MaxEntries,
-          Cols
-
-Fmts == {"none", "see", "textbf"}
+          Cols,
+          Fmts         \* subset of {"none", "see", "textbf"}
 
 VARIABLES entries,     \* the \index commands in document order
           done
